@@ -128,6 +128,7 @@ Section WithHighlight.
       via tbl $"render_document"
           (let body := join_items [nl] (map (R false false) ch) in
            match serialize body with [] => [] | _ => body ++ [nl] end) t
+    | BlankLine | LinkRefDef _ | LinkRefDefBlock _ => []
     end.
 End WithHighlight.
 
